@@ -88,7 +88,7 @@ ITEMS = [
     # ---- get_tree ----------------------------------------------------------------------------
     int_item('parentI', r'def get_tree\(self, nslave\):', r'parent_map\[r\] = ([^\n]+)', [('r', 'r')]),
     # ---- find_share_ring: "this was the last child" test (len(cset) passed as a number) -------
-    len_item('isLast', r'def find_share_ring\(self, tree_map, parent_map, r\):', r'if (cnt == len\(cset\)):',
+    len_item('isLast', r'def find_share_ring\(self, tree_map, parent_map, r\):', r'\n\s*if (cnt [^:\n]+):\s*vlst\.reverse\(\)',
              [V('cnt'), V('csetLen')]),
     ('cntStep', F, r'def find_share_ring\(self, tree_map, parent_map, r\):', r'cnt \+= ([^\n]+)', [], 'Nat', True),
     # ---- get_ring ----------------------------------------------------------------------------
